@@ -126,6 +126,8 @@ def build(run):
     run.kani(crate_c, [lemma_c], timeout=600)
     crate_d, lemma_d = fun_lemma(run)
     run.kani(crate_d, [lemma_d], timeout=600)
+    crate_e, lemma_e = lift_lemma(run)
+    run.kani(crate_e, [lemma_e], timeout=600)
     ntok = 3 if run.tier == "quick" else 4
     crate, pats = lexer_crate(run, "c19lex", ntok)
     lem = lexer_lemma(run, crate, ntok)
@@ -282,6 +284,106 @@ def fun_lemma(run):
                        role=lambda v, o: "argument-list-lost" if "argument list is lost" in o else "application-order",
                        covers=["three chained applications reachable", "error after one complete application reachable"],
                        claim="head(a1)(a2)..(an): application k gets the result of application k-1 as its head and the k-th argument list; the result is the last application")
+
+# ======================================================================================================================
+# K-C19-e: lift_function_name applied twice (head(a)(b)), for heads that are ordinary words and heads that spell a MathML leaf name
+LIFT_SHIM = r"""
+use core::marker::PhantomData;
+const IMPLICIT_FUNCTION_NAME: &str = "apply-function";
+const INTENT_PROPERTY: &str = "data-intent-property";
+const STR: [&str; 6] = ["", "mi", "mn", "f", "_", "apply-function"];
+fn sidx(s: &str) -> u8 { match s { "" => 0, "mi" => 1, "mn" => 2, "f" => 3, "_" => 4, "apply-function" => 5, _ => { assert!(false, "string outside the model"); 0 } } }
+pub const NE: usize = 6;
+static mut NAME: [u8; NE] = [0; NE];
+static mut TEXT: [u8; NE] = [0; NE];
+static mut LIST: [u8; NE] = [0; NE];        // id of the argument list the element holds as children (0 = none)
+static mut HEAD: [u8; NE] = [255; NE];      // apply-function: the element it applies
+static mut SILENT: [bool; NE] = [false; NE];
+static mut NEL: usize = 0;
+#[derive(Clone, Copy, PartialEq, Debug)] pub struct Element<'a> { id: u8, p: PhantomData<&'a ()> }
+#[derive(Clone, Copy)] pub struct Document<'a>(PhantomData<&'a ()>);
+#[derive(Clone, Copy)] pub struct Args { list: u8 }
+/// children() of the model: `n` element children (the applied element / the argument list), or one text child for a leaf that holds text
+pub struct Kids { n: usize, text: bool }
+#[derive(Clone, Copy)] pub struct Kid { is_element: bool }
+impl Kid { pub fn element(&self) -> Option<()> { if self.is_element { Some(()) } else { None } } pub fn text(&self) -> Option<()> { if self.is_element { None } else { Some(()) } } }
+pub struct KidIter { left: usize, text: bool }
+impl Iterator for KidIter { type Item = Kid; fn next(&mut self) -> Option<Kid> { if self.left > 0 { self.left -= 1; Some(Kid { is_element: true }) } else if self.text { self.text = false; Some(Kid { is_element: false }) } else { None } } }
+impl Kids { pub fn is_empty(&self) -> bool { self.n == 0 && !self.text } pub fn len(&self) -> usize { self.n + self.text as usize } pub fn iter(&self) -> KidIter { KidIter { left: self.n, text: self.text } } }
+fn el<'a>(id: u8) -> Element<'a> { Element { id, p: PhantomData } }
+fn name<'a>(e: &Element<'a>) -> &'static str { STR[unsafe { NAME[e.id as usize] } as usize] }
+/// xpath_functions::is_leaf: by element NAME (mi, mn are the leaf names in play here)
+fn is_leaf(e: Element) -> bool { let n = unsafe { NAME[e.id as usize] }; n == 1 || n == 2 }
+/// canonicalize::as_text: panics unless the element is a leaf whose only child is text
+fn as_text<'a>(e: Element<'a>) -> &'static str {
+    assert!(is_leaf(e), "as_text of a non-leaf");
+    assert!(unsafe { LIST[e.id as usize] == 0 && HEAD[e.id as usize] == 255 }, "as_text: internal error -- found non-text child of leaf element");
+    STR[unsafe { TEXT[e.id as usize] } as usize]
+}
+fn set_mathml_name(e: Element, nm: &str) { unsafe { NAME[e.id as usize] = sidx(nm); } }
+fn create_mathml_element<'a>(_d: &Document<'a>, nm: &str) -> Element<'a> { unsafe { let id = NEL; assert!(id < NE); NEL += 1; NAME[id] = sidx(nm); TEXT[id] = 0; LIST[id] = 0; HEAD[id] = 255; el(id as u8) } }
+impl<'a> Element<'a> {
+    pub fn set_text(&self, t: &str) { unsafe { TEXT[self.id as usize] = sidx(t); } }
+    pub fn replace_children(&self, a: Args) { unsafe { LIST[self.id as usize] = a.list; HEAD[self.id as usize] = 255; } }
+    pub fn children(&self) -> Kids { let n = unsafe { (LIST[self.id as usize] != 0) as usize + (HEAD[self.id as usize] != 255) as usize }; Kids { n, text: n == 0 && unsafe { TEXT[self.id as usize] != 0 } } }
+    pub fn append_child(&self, c: Element<'a>) { unsafe { HEAD[self.id as usize] = c.id; } }
+    pub fn append_children(&self, a: Args) { unsafe { LIST[self.id as usize] = a.list; } }
+    pub fn attribute_value(&self, _n: &str) -> Option<&'static str> { None }
+    pub fn set_attribute_value(&self, _n: &str, _v: &str) { unsafe { SILENT[self.id as usize] = true; } }
+}
+type Vec<T> = ArgsOf<T>;
+pub struct ArgsOf<T> { a: Args, p: PhantomData<T> }
+impl<'a> From<ArgsOf<Element<'a>>> for Args { fn from(v: ArgsOf<Element<'a>>) -> Args { v.a } }
+"""
+
+LIFT_HARNESS = r"""
+impl<'a> Element<'a> {
+    fn replace_children_v(&self, v: ArgsOf<Element<'a>>) { self.replace_children(v.a) }
+}
+fn twice(word: &'static str, number: bool) -> u8 {
+    unsafe { NEL = 0; }
+    let doc = Document(PhantomData);
+    // the head as build_intent creates it: an mi (mn for a number token) holding the word
+    let head = create_mathml_element(&doc, if number { "mn" } else { "mi" });
+    head.set_text(word);
+    let r1 = lift(doc, head, Args { list: 1 });
+    let r2 = lift(doc, r1, Args { list: 2 });
+    // both argument lists are still in the result:  r2 = apply-function(r1, list 2), r1 holds list 1   (or r2 == r1 holding both -- never the case here)
+    let ok = unsafe { HEAD[r2.id as usize] == r1.id && LIST[r2.id as usize] == 2 && LIST[r1.id as usize] == 1 };
+    if ok { 0 } else { 1 }
+}
+HARNESS(head_applied_twice_is_total, 16) {
+    let k = sym::below(4);
+    let code = match k { 0 => twice("f", false), 1 => twice("mi", false), 2 => twice("mn", false), _ => twice("_", false) };
+    cover!(k == 1, "head that spells a leaf element name reachable");
+    cover!(k == 3, "head made of underscores reachable");
+    assert!(code == 0, "head(a)(b): an argument list is lost");
+}
+"""
+
+
+def api_lift(vals=None, out=None):
+    res = mcprobe([("mathml", "<math><mrow intent='mi($x)($y)'><mi arg='x'>x</mi><mo>+</mo><mi arg='y'>y</mi></mrow></math>"), "speech", ("mathml", "<math><mi>z</mi></math>"), "speech"])
+    return any(r[0] in ("PANIC", "ABORT") for r in res), {"script": "intent='mi($x)($y)' (a head that spells a MathML leaf name, applied twice); get_spoken_text must give speech or an error, not panic", "results": res[1:]}
+
+
+def lift_lemma(run):
+    src = slicer.Source.get("src/infer_intent.rs")
+    f = src.find("fn lift_function_name")
+    run.uses(f)
+    text = f.text.replace("fn lift_function_name", "fn lift_function_name_real", 1)
+    body = LIFT_SHIM + f.text + "\nfn lift<'m>(doc: Document<'m>, function_name: Element<'m>, a: Args) -> Element<'m> { lift_function_name(doc, function_name, ArgsOf { a, p: PhantomData }) }\n" + LIFT_HARNESS
+    body = body.replace("pub fn replace_children(&self, a: Args)", "pub fn replace_children<A: Into<Args>>(&self, a: A)").replace("LIST[self.id as usize] = a.list; HEAD[self.id as usize] = 255; } }", "let a: Args = a.into(); LIST[self.id as usize] = a.list; HEAD[self.id as usize] = 255; } }", 1)
+    body = body.replace("pub fn append_children(&self, a: Args) { unsafe { LIST[self.id as usize] = a.list; } }", "pub fn append_children<A: Into<Args>>(&self, a: A) { let a: Args = a.into(); unsafe { LIST[self.id as usize] = a.list; } }")
+    body = body.replace("impl<'a> Element<'a> {\n    fn replace_children_v(&self, v: ArgsOf<Element<'a>>) { self.replace_children(v.a) }\n}\n", "").replace("    self.replace_children(v.a)", "")
+    crate = kani_run.Crate("c19lift", body)
+    run.bound("K-C19-e", "lift_function_name verbatim, applied twice as build_function does for head(a)(b); head word in {f, mi, mn, _} (4 solver-selected cases on literals)")
+    run.assume("K-C19-e: sxd_document elements reduced to (name, text, argument-list id, applied element); is_leaf decides by element name and as_text panics on an element that has element children, as the real functions do")
+    return crate, dict(id="K-C19-e.head_applied_twice_total", harness="head_applied_twice_is_total", api=lambda v, o: api_lift(),
+                       role=lambda v, o: "leaf-named-head-panics" if "non-text child" in o else "argument-list-lost-in-lift",
+                       covers=["head that spells a leaf element name reachable", "head made of underscores reachable"],
+                       claim="head(a)(b) never panics and keeps both argument lists, also when the head spells mi / mn")
+
 
 # ======================================================================================================================
 # K-C19-c: find_arg -- a reference $name resolves to the first descendant with arg=name that is VISIBLE from the element
